@@ -62,6 +62,11 @@ class KDScheduledTransform(KDTransform):
         else:
             raise NotImplementedError
 
+    def set_rng(self, rng):
+        if isinstance(self.transform, KDTransform):
+            self.transform.set_rng(rng)
+        return self
+
     def __call__(self, x, ctx=None):
         # make sure that worker_init_fn was called
         if torch.utils.data.get_worker_info() is not None:
